@@ -70,4 +70,12 @@ def r12_2(ctx):
     return out
 
 
-RULES = [r12_1, r12_2]
+def r12_3(ctx):
+    from rules import C17
+    o = C17.r17_3(ctx)
+    o.rule = "R12.3"
+    o.text = ("the boxes used as quick rejects enclose what they stand for: the box of a segment / closed curve / shape contains every point of it, interior extrema of curved pieces included (same analysis as R17.3); a box that misses an arc bulge makes operators depend on the rotation of the drawing")
+    return o
+
+
+RULES = [r12_1, r12_2, r12_3]
